@@ -13,6 +13,9 @@
 // instance uid, twice over; a malformed uid; own-metrics connection settings; a custom message; a remote config without
 // a config map) delivered through the REAL Agent.onMessage anywhere between readings and report attempts.
 //
+// Fourth scenario (stop.go): the real Agent.Stop requested anywhere in a history whose reports can be in flight (accepted by
+// the OpAMP client, not yet taken by the connection); delivered usage must never exceed the counter growth.
+//
 // Payloads are decoded with pmetric.JSONUnmarshaler from the bytes handed to SendCustomMessage.
 package main
 
@@ -49,6 +52,14 @@ func (e event) String() string {
 		return fmt.Sprintf("read(%s,+%d)", signals[e.Sig], e.D)
 	case "msg":
 		return "server-msg(" + e.Out + ")"
+	case "deliver": // fourth scenario (stop.go): the connection takes the report the client holds; [what later sends get]
+		return "connection-takes-held-report[then sends->" + e.Out + "]"
+	case "stop":
+		return "Agent.Stop[sends->" + e.Out + "]"
+	case "tick":
+		return "clock+1m"
+	case "cancel-stop-ctx":
+		return "cancel(ctx given to Stop)"
 	}
 	return "report->" + e.Out
 }
@@ -494,6 +505,8 @@ func main() {
 		// every history of length <= 4 (quick; 17^4) / <= 5 (thorough; 17^5) is executed whatever the canonical key says
 		NoMergeDepth: ev.Pick(r, 3, 4),
 	})
+	// fourth scenario: the real Agent.Stop anywhere in a history with reports in flight (stop.go)
+	exploreStop(r)
 	r.Set("evaluations", r.Count("transitions"))
 	if r.NDistinct("distinct_nontrivial") == 0 {
 		r.Set("distinct_nontrivial", 0) // exploration was cut at a shallow violation
